@@ -47,7 +47,10 @@ def balanced(text):
     declast, _ = dc.mods()
     for o, c in (("LPAREN", "RPAREN"), ("LBRACKET", "RBRACKET")):
         depth = 0
-        for t in declast.tokenize(text):
+        toks = list(declast.tokenize(text))
+        for i, t in enumerate(toks):
+            if o == "LBRACKET" and _in_attr(toks, i):
+                continue      # attribute text is free-form
             if t.typ == o:
                 depth += 1
             elif t.typ == c:
